@@ -103,7 +103,16 @@ impl PatProp for VsRegex {
     fn eval(&self, _ctx: &RunCtx, p: &VP, _n: &Node, t: &str, _pos: usize) -> Verdict {
         let (fr, rr) = (&p.fr, &p.rr);
         let r = catch_unwind(AssertUnwindSafe(|| -> Result<bool, Fail> {
-            let e = |what: &str, e: fancy_regex::Error| Fail::new("runtime-error", "no error", format!("{}: {}", what, engine::err_kind(&e)));
+            // a backtrack-limit / stack error is the documented resource limit of the backtracking engine, judged
+            // by C07 (which bounds when it may occur); here it ends the comparison of this case
+            let e = |what: &str, e: fancy_regex::Error| {
+                let k = engine::err_kind(&e);
+                if k == "BacktrackLimitExceeded" || k == "StackOverflow" {
+                    Fail::new("resource-limit", "", k)
+                } else {
+                    Fail::new("runtime-error", "no error", format!("{}: {}", what, k))
+                }
+            };
             let mut nonempty = false;
             let im = fr.is_match(t).map_err(|x| e("is_match", x))?;
             if im != rr.is_match(t) {
@@ -211,6 +220,7 @@ impl PatProp for VsRegex {
         }));
         match r {
             Err(e) => Verdict::Fail(Fail::new("panic", "as the regex crate", format!("PANIC({})", engine::panic_msg(e)))),
+            Ok(Err(f)) if f.kind == "resource-limit" => Verdict::Skip("runtime resource limit (judged by C07)"),
             Ok(Err(f)) => Verdict::Fail(f),
             Ok(Ok(m)) => Verdict::Pass { nontrivial: m && (p.special || p.vm), class: if m { Some("outcome:match") } else { None } },
         }
